@@ -421,8 +421,124 @@ func suiteBodies(full bool) hlib.Suite {
 	}}
 }
 
+const stagesYAML = `scenario: s
+limits:
+  max-duration: 5s
+  concurrency: %d
+  max-iterations: 0
+  ignore-dropped: true
+stages:
+- duration: %s
+  mode: constant
+  rate: 1/100ms
+  jitter: 0
+  distribution: none
+- duration: %s
+  mode: %s
+  rate: 1/100ms
+  jitter: 0
+  distribution: none
+  concurrency: 1
+- duration: 150ms
+  mode: constant
+  rate: 2/100ms
+  jitter: 0
+  distribution: none
+`
+
+// suiteStages: config-file mode. Stages follow each other without waiting for
+// the previous stage's iterations, so an iteration of one stage is still running
+// while later stages' workers run theirs. Every iteration's cleanups still run
+// exactly once, in reverse order, after its own body; setup's cleanup runs once,
+// after all of them.
+func suiteStages() hlib.Suite {
+	return hlib.Suite{Name: "config-file-stages/iterations-outliving-their-stage", Run: func(r *hlib.Rec) {
+		for _, conc := range []int{1, 2} {
+			for _, d1 := range []string{"150ms", "250ms"} {
+				for _, mode2 := range []string{"constant", "users"} {
+					for _, long := range []time.Duration{10 * time.Millisecond, 320 * time.Millisecond, 550 * time.Millisecond} {
+						for _, outcome := range []string{bOK, bFailNow, bPanic} {
+							if !r.Mine() || r.Expired() {
+								continue
+							}
+							r.Eval()
+							input := fmt.Sprintf("three stages (constant %s, %s 150ms, constant 150ms) concurrency %d; iteration 1 takes %s and ends with %s, the others 10ms; every body registers two cleanups", d1, mode2, conc, long, outcome)
+							r.SampleCase(input)
+							var ev []string
+							rs := &hlib.RunSpec{Mode: "file", FileYAML: fmt.Sprintf(stagesYAML, conc, d1, "150ms", mode2), Quiet: true, CompletionTimeout: 2 * time.Second}
+							rs.ScenarioFn = func(t *f1testing.T) f1testing.RunFn {
+								ev = append(ev, "setup")
+								t.Cleanup(func() { ev = append(ev, "setup-cleanup") })
+								return func(t *f1testing.T) {
+									id := t.Iteration
+									ev = append(ev, "begin "+id)
+									t.Cleanup(func() { ev = append(ev, "cleanupA "+id) })
+									t.Cleanup(func() { ev = append(ev, "cleanupB "+id) })
+									if id == "1" {
+										vtime.Sleep(long)
+										ev = append(ev, "end "+id)
+										switch outcome {
+										case bFailNow:
+											t.FailNow()
+										case bPanic:
+											panic("body panics")
+										}
+										return
+									}
+									vtime.Sleep(10 * time.Millisecond)
+									ev = append(ev, "end "+id)
+								}
+							}
+							res := hlib.RunOnce(rs, -1, 0, 60*time.Second)
+							if res.BuildErr != nil {
+								r.Fail("C06/harness", "build", res.BuildErr.Error(), input)
+								continue
+							}
+							if res.Out.Status != vrt.StOK {
+								r.Fail("C06/run-broken", "stages", res.Out.Status.String()+": "+res.Out.Crash+res.Out.Detail, input)
+								continue
+							}
+							pos := map[string][]int{}
+							begun := 0
+							for i, e := range ev {
+								pos[e] = append(pos[e], i)
+								if strings.HasPrefix(e, "begin ") {
+									begun++
+								}
+							}
+							if begun < 4 {
+								r.Fail("C06/harness", "too-few-iterations", fmt.Sprintf("only %d iterations ran", begun), input)
+							}
+							for e, at := range pos {
+								if !strings.HasPrefix(e, "begin ") {
+									continue
+								}
+								id := strings.TrimPrefix(e, "begin ")
+								a, b, end := pos["cleanupA "+id], pos["cleanupB "+id], pos["end "+id]
+								switch {
+								case len(at) != 1:
+									r.Fail("C06/harness", "duplicate-iteration-id", fmt.Sprintf("iteration id %s began %d times", id, len(at)), input)
+								case len(a) != 1 || len(b) != 1:
+									r.Fail("C06/cleanup-exactly-once", fmt.Sprintf("stages/ran-%d-and-%d-times", min(len(a), 2), min(len(b), 2)), fmt.Sprintf("iteration %s: its first cleanup ran %d times and its second %d times (events: %v)", id, len(a), len(b), ev), input)
+								case len(end) != 1 || b[0] < end[0] || a[0] < b[0]:
+									r.Fail("C06/cleanup-order", "stages", fmt.Sprintf("iteration %s: body end at %v, second-registered cleanup at %v, first-registered at %v (events: %v)", id, end, b, a, ev), input)
+								}
+							}
+							if sc := pos["setup-cleanup"]; len(pos["setup"]) != 1 || len(sc) != 1 || sc[0] != len(ev)-1 {
+								r.Fail("C06/setup-cleanup-last", "stages", fmt.Sprintf("setup ran %d times, its cleanup at %v of %d events", len(pos["setup"]), sc, len(ev)), input)
+							}
+							r.Distinct(fmt.Sprintf("conc=%d d1=%s mode2=%s long=%s %s", conc, d1, mode2, long, outcome))
+						}
+					}
+				}
+			}
+		}
+		r.Sample("three config-file stages; iteration 1 of stage 1 takes 10/320/550 ms and so ends during stage 1, 2 or 3")
+	}}
+}
+
 func suites(tier string) []hlib.Suite {
-	return []hlib.Suite{suiteSetup(true), suiteBodies(tier != "quick")}
+	return []hlib.Suite{suiteSetup(true), suiteBodies(tier != "quick"), suiteStages()}
 }
 
 func main() { hlib.EnumMain("C06", suites) }
